@@ -510,6 +510,7 @@ func (fr *frame) visit(instr ssa.Instruction) int {
 		if len(ch.Buf) >= ch.Cap {
 			panic(abortPath{"send would block"})
 		}
+		ex.evPoolPut(ch.Buf, fr.get(in.X), "channel pool")
 		ch.Buf = append(ch.Buf, fr.get(in.X))
 	case *ssa.Store:
 		ex.store(fr.get(in.Addr).(Ptr), mustDeref(in.Addr.Type()), fr.get(in.Val), nil)
